@@ -412,6 +412,47 @@ func ruleR11_10(w *World, r *Report) {
 			continue
 		}
 		allInstrs(fn, func(ins ssa.Instruction) {
+			// a shared numbering step that records into the table of all variables (`val = vars.add(l.v)`)
+			if c, isC := ins.(*ssa.Call); isC {
+				g := c.Call.StaticCallee()
+				if g == nil || !m.inPkg[g] || !returnsFreshIndex(g) {
+					return
+				}
+				ki := -1
+				allInstrs(g, func(i2 ssa.Instruction) {
+					if mu, ok := i2.(*ssa.MapUpdate); ok {
+						if _, f, _, okF := loadedFieldOf(mu.Map); okF && f == "all" {
+							ki = paramIndex(g, mu.Key)
+						}
+					}
+				})
+				if ki < 0 || ki >= len(c.Call.Args) {
+					return
+				}
+				n++
+				key := fmt.Sprintf("%s records the number of a problem variable in both tables", w.FuncName(fn))
+				paired := false
+				for _, i2 := range c.Block().Instrs {
+					if m2, ok := i2.(*ssa.MapUpdate); ok && sameLoad(m2.Key, c.Call.Args[ki]) {
+						if _, f2, _, okF := loadedFieldOf(m2.Map); okF && f2 == "pb" {
+							// the value recorded is the number just handed out (possibly through the local it was assigned to)
+							if m2.Value == ssa.Value(c) {
+								paired = true
+							}
+							if phi, isPhi := m2.Value.(*ssa.Phi); isPhi {
+								for _, e := range phi.Edges {
+									if e == ssa.Value(c) {
+										paired = true
+									}
+								}
+							}
+						}
+					}
+				}
+				r.Check(paired, "R11.10", key, w.InstrPos(c), "both tables updated in the same block",
+					"the number of a problem variable is recorded in the table of all variables but not, in the same step, in the table of problem variables: a variable whose first (or only) occurrences take the other path never appears in the model returned by Solve, or under another number in the export")
+				return
+			}
 			mu, ok := ins.(*ssa.MapUpdate)
 			if !ok {
 				return
@@ -448,7 +489,7 @@ func ruleR11_11(w *World, r *Report) {
 	n := 0
 	for _, fn := range m.fns {
 		res := fn.Signature.Results()
-		if res.Len() != 1 || typeShort(res.At(0).Type()) != "[][]int" || fn.Signature.Recv() != nil {
+		if res.Len() != 1 || typeShort(res.At(0).Type()) != "[][]int" {
 			continue
 		}
 		// numbering calls: methods of the variable tables returning int
